@@ -4,6 +4,7 @@ package vc
 // repository functions and closures, engine-level models of fmt.Errorf.
 
 import (
+	"go/token"
 	"fmt"
 	"go/constant"
 	"go/types"
@@ -197,6 +198,20 @@ func (x *Exec) invoke(st *State, site ssa.Instruction, c *ssa.CallCommon, fnv Va
 		if k, ok := x.P.closures[f.T]; ok {
 			cl = k
 		} else {
+			// a function stored in a struct field may have a contract of its own: `iface T.field` (this = the struct)
+			if u, ok := c.Value.(*ssa.UnOp); ok && u.Op == token.MUL {
+				if fa, ok := u.X.(*ssa.FieldAddr); ok {
+					structT := deref(fa.X.Type())
+					if n, ok := structT.(*types.Named); ok {
+						fld := under(structT).(*types.Struct).Field(fa.Field)
+						if spec := x.P.fieldFuncSpec(n, fld.Name()); spec != nil {
+							recv := x.val(st, fa.X)
+							x.callSpec(st, site, kind, spec, nil, sig, append([]Val{recv}, args...), fa.X.Type())
+							return
+						}
+					}
+				}
+			}
 			x.unknownCall(st, site, kind, sig, "dynamic function value in "+fnShort(st.fr.fn))
 			return
 		}
